@@ -192,12 +192,29 @@ def summary_rules(h: int, served_head: str, twin: bool = False, real: bool = Fal
                 accepted = True
             except Exception:
                 accepted = False
+            # a sibling candidate (same parent, one second later) is judged on its own timestamp
+            second = None
+            if accepted and boundary and ts + 1 <= now + MAX_FUTURE and ts + 1 < 2 ** 32:
+                first_calls = list(calls)
+                del calls[:]
+                cb2 = W.env.coinbase(hr, [dt.Output(1, W.keys[3])], tok(TX, 24))
+                try:
+                    sib = W.candidate(pre, [cb2], ts + 1, height=hs, target=stated, bid=tok(BLK, 9))
+                    pre.add_block(sib, now)
+                    second = (True, list(calls))
+                except Exception:
+                    second = (False, list(calls))
+                calls[:] = first_calls
         finally:
             cons.calculate_new_target = real_kernel
         if twin:
             return not accepted
         if not accepted:
             return True
+        if second is not None:
+            ok2, calls2 = second
+            if not ok2 or len(calls2) != 1 or calls2[0][0] != PT or calls2[0][1] != ts + 1 - sp:
+                return False
         if not (pts < ts <= now + MAX_FUTURE):
             return False
         if not (hs == h and hr == h):
@@ -313,6 +330,46 @@ def evidence_forged(twin: bool = False, real: bool = False):
         return (not accepted) or fake == correct
 
     return check_forged, {"sb": b"\x00\x02"}
+
+
+def evidence_other_view(twin: bool = False, real: bool = False):
+    """While the sibling fork is the served head: evidence whose chain sample (and the block hash over it) was taken from
+    the HEAD's chain instead of the block's own ancestors must be rejected; the honest evidence is what the validator expects."""
+    W = World(real=real, served_head="F")
+    dt = W.dt
+
+    def check_other_view(ts: int, ov: int) -> bool:
+        """
+        post: _
+        """
+        if not (2001 < ts < 2 ** 31 and 1 <= ov <= 5):
+            return True
+        if not real:
+            W._install_crypto()
+        pv = [5, 6, 7, 8]
+        pre = W.state(pv)
+        cb = W.env.coinbase(W.h, [dt.Output(1, W.keys[3])], tok(TX, 20))
+        tx = W.make_tx(tok(TX, 21), [(0, 0, 0)], [(ov, 1)], pv, cb.hash(), None)
+        good = W.candidate(pre, [cb, tx], ts)
+        ev = good.header.pow_evidence
+        idx_head = pre.block_by_height_by_hash[W.F.hash()]
+        foreign_sample = W.sample(ev.summary_hash, W.h, lambda hh: idx_head[hh])
+        f = W.env.ser.BytesIO()
+        W.env.ser.stream_serialize_list(f, [cb, tx])
+        foreign = dt.PowEvidence(ev.summary_hash, foreign_sample, W.blake2(ev.summary_hash + foreign_sample + f.getvalue()))
+        cheat = W.candidate(pre, [cb, tx], ts, evidence=foreign, nonce=good.header.summary.nonce)
+        if foreign_sample == ev.chain_sample:
+            return True
+        try:
+            pre.add_block(cheat, ts)
+            accepted = True
+        except Exception:
+            accepted = False
+        if twin:
+            return accepted
+        return not accepted
+
+    return check_other_view, {"ts": 3000, "ov": 3}
 
 
 # ------------------------------------------------------------------------------------------------ e (ii)
@@ -490,6 +547,8 @@ def obligations(tier: str, known: List[str]) -> List[Ob]:
     obs.append(twin_of([o for o in obs if o.name == "bcd.summary-rules[h=2,head=P]"][0], timeout=300))
     for f in range(3):
         obs.append(Ob("e.evidence-field[%s]" % ["summary_hash", "chain_sample", "block_hash"][f], C_EV, "evidence_field", {"field": f}, timeout=T))
+    obs.append(twin_of(obs[-1], timeout=300))
+    obs.append(Ob("e.evidence-sampled-from-the-served-head's-chain", C_EV, "evidence_other_view", {}, timeout=T))
     obs.append(twin_of(obs[-1], timeout=300))
     obs.append(Ob("e.evidence-forged-consistently", C_EV, "evidence_forged", {}, timeout=T))
     obs.append(twin_of(obs[-1], timeout=300))
